@@ -13,7 +13,28 @@ import os
 import re
 from typing import Any, Callable, Dict, List, Tuple
 
-STATEMENT_STATUS: Dict[str, str] = {}
+STATEMENT_STATUS: Dict[str, str] = {
+    "C13_family_classes": "proved (class table regenerated from pdfminer/*.py)",
+    "C13_internal_not_family": "proved",
+    "C13_guards_present": "proved (flags regenerated from the sources: resolve1, resolve_all, create_pages, read_xref_from)",
+    "C13_fuel_resolve1": "proved: fuel = number of objects + 1 suffices for every object graph",
+    "C13_family_resolve1": "proved", "C13_total_resolve1": "proved (non-STRICT: always a value)",
+    "C13_family_int_value": "proved", "C13_family_float_value": "proved", "C13_family_num_value": "proved",
+    "C13_family_str_value": "proved", "C13_family_list_value": "proved", "C13_family_dict_value": "proved",
+    "C13_family_stream_value": "proved", "C13_family_uint_value": "proved",
+    "C13_family_safe_int": "proved (uses the regenerated except clause)", "C13_family_safe_float": "proved",
+    "C13_safe_rect_list_statement": "full statement: FALSE on the code (PDFStream value) - counter-example proved",
+    "C13_safe_rect_list_cex": "proved counter-example, replayed on the implementation (open finding)",
+    "C13_family_safe_rect_list_partial": "partial: excludes stream values",
+    "C13_fuel_xref_chain": "proved: recursion depth <= number of sections + 1, incl. Prev/XRefStm cycles",
+    "C13_family_xref_chain": "proved",
+    "C13_fuel_pagetree": "proved: recursion depth <= number of objects + 2 for every graph (Kids cycles, direct nodes, ints)",
+    "C13_family_pagetree": "proved",
+    "C13_get_widths_work_statement": "full statement (work linear in the W array): FALSE on the code - counter-example proved",
+    "C13_get_widths_work_cex": "proved counter-example (open finding budget-replace)",
+    "resolve_all depth bound, get_widths family": "not proved (modelled and correspondence-checked only; future work)",
+    "parser, filters, fonts/CMaps, interpreter, layout, converters, encryption": "not modelled: fault enumeration only (search, not proof)",
+}
 
 # (class, exception, innermost function, fault kind, note)
 OPEN: List[Tuple[str, str, str, str, str]] = [
@@ -107,10 +128,10 @@ FIXED: List[str] = [
     "fixed: property=C13 2f88717 PDFStream.decode leaked decoder-internal errors (binascii.Error, ValueError, IndexError, RuntimeError/StopIteration, TypeError) on damaged LZW/ASCII85/ASCIIHex/RunLength data, predictors and DecodeParms",
     "fixed: property=C13 3d4d80b SC/SCN/sc/scn with too few operands raised IndexError / TypeError",
     "fixed: property=C13 8f69ed0 ill-typed MediaBox/CropBox leaked TypeError (parse_rect, _parse_mediabox, _parse_cropbox)",
-    "fixed: property=C13 10b1993 page-tree node that is not an indirect reference raised AttributeError in create_pages",
-    "fixed: property=C13 883ab3b circular /Prev or /XRefStm chain exhausted the recursion limit in read_xref_from",
-    "fixed: property=C13 1618b68 odd-length string shown in an Identity-H/V font raised struct.error (IdentityCMap.decode)",
-    "fixed: property=C13 (see repo log) negative /Prev or /XRefStm offset leaked ValueError from seek",
+    "fixed: property=C13 01c5bbb page-tree node that is not an indirect reference raised AttributeError in create_pages",
+    "fixed: property=C13 fd2e625 circular /Prev or /XRefStm chain exhausted the recursion limit in read_xref_from",
+    "fixed: property=C13 badb0ce odd-length string shown in an Identity-H/V font raised struct.error (IdentityCMap.decode)",
+    "fixed: property=C13 dd5bac2 negative /Prev or /XRefStm offset leaked ValueError from seek",
 ]
 
 if __name__ == "__main__":
